@@ -353,6 +353,3 @@ func problemPaths(ps []*core.Problem) []string {
 	return out
 }
 
-func finalComponentScenarios(property string) []string                  { return nil }
-func genFinalComponents(p *simkit.Plan, r *simkit.Rand, tier string)      {}
-func execFinalComponents(t *testing.T, plan *simkit.Plan) *simkit.Result  { return nil }
